@@ -65,6 +65,8 @@ def weibull_terms(t, observed, nu, rho, xi, tau, shifts=None):
     log_h       : log-hazard (w.r.t. the real time t) for t > tau, -inf for t <= tau
     nll         : neg_log_S - observed * log_h   (+inf for an observed event at t <= tau)
     after       : t > tau        at_tau : t == tau       before : t < tau
+    log_pow     : log of the power factor ((t-tau)/scale_i)^(rho-1) of the hazard (numeric annotation only: below -708 that factor
+                  is smaller than the smallest normal float64, so an implementation forming the hazard before taking its log loses it)
     observed    : boolean, broadcast
     """
     t, nu, rho, xi, tau = f64(t), f64(nu), f64(rho), f64(xi), f64(tau)
@@ -78,4 +80,5 @@ def weibull_terms(t, observed, nu, rho, xi, tau, shifts=None):
         H = np.where(after, np.exp(rho * log_s_over_nu + u), 0.0)
         log_h = np.where(after, np.log(rho) + xi - np.log(nu) + (rho - 1.0) * log_s_over_nu + u, -np.inf)
         nll = np.where(obs, H - log_h, H)
-    return dict(neg_log_S=H, log_h=log_h, nll=nll, after=after, at_tau=at_tau, before=before, observed=obs)
+        log_pow = np.where(after, (rho - 1.0) * (log_s_over_nu + u / rho), 0.0)
+    return dict(neg_log_S=H, log_h=log_h, nll=nll, after=after, at_tau=at_tau, before=before, observed=obs, log_pow=log_pow)
